@@ -530,7 +530,7 @@ func (s *c08State) stepDeactivate(via string) M {
 }
 
 // refusals: inputs the builders must refuse because the request would be unacceptable
-var c08Refusals = []string{"equal-commitments", "reused-key", "wrong-hash-algorithm", "empty-opaque-document", "window-beyond-exact"}
+var c08Refusals = []string{"equal-commitments", "reused-key", "wrong-hash-algorithm", "empty-opaque-document", "window-beyond-exact", "no-recovery-key"}
 
 // other malformed inputs (no expectation beyond model = implementation)
 var c08Malformed = []string{"no-signer", "signer-without-alg", "extra-header", "no-key", "no-patches", "opaque-and-patches", "no-suffix", "no-reveal",
@@ -641,6 +641,21 @@ func (s *c08State) spoil(st M, how string) bool {
 			}
 			s.sign(s.lastSigner, s.lastHeaders, signed)
 		}
+	case "no-recovery-key":
+		// a deactivate request without the recovery key in its signed data is refused by every parser
+		if op != "deactivate" {
+			return false
+		}
+		delete(info, "key")
+		signed := M{"didSuffix": info["didSuffix"], "revealValue": "", "recoveryKey": nil}
+		if s.lastWindow.From != 0 {
+			signed["anchorFrom"] = s.lastWindow.From
+		}
+		if s.lastWindow.Until != 0 {
+			signed["anchorUntil"] = s.lastWindow.Until
+		}
+		// the signer can sign what a builder that does not look hands it
+		s.sign(s.lastSigner, s.lastHeaders, signed)
 	case "no-signer":
 		if op == "create" {
 			return false
